@@ -72,25 +72,38 @@ Definition faithful_case (k : Z) (case : sx) : option (sx * sx) :=
   end.
 
 (* json cut: case = (#path limit #data) [7] | ((#path limit) ... #data) [8];
-   obs = (validIn validOut out ((index strlen valid exists isString) ...))
+   obs = (validIn validOut out ((index strlen valid exists isString #raw) ...))
    where out = (0 #bytes) | (2 ..) | (3), validIn / validOut = encoding/json validity of the document
    before / after the cut, and the groups are what gjson reported for each path (the oracle the model
-   does not carry) *)
-Definition json_group (limit : Z) (g : sx) : option (list (Z * Z * Z)) :=
+   does not carry): Index, len(Str), ValidBytes, Exists, Type == String, Raw.
+   A group without #raw (the observable of [7], kept for replays of old cases; no generator uses it)
+   stands for a plain path: Raw is taken to be the string the model finds at Index. *)
+Definition json_group (data : bytes) (limit : Z) (g : sx) : option (list jfound) :=
   match g with
+  | SL [SZ index; SZ strlen; v; e; s; SB raw] =>
+      match as_bool v, as_bool e, as_bool s with
+      | Some v, Some e, Some s => Some (if v && e && s then [(index, strlen, limit, raw)] else [])
+      | _, _, _ => None
+      end
   | SL [SZ index; SZ strlen; v; e; s] =>
       match as_bool v, as_bool e, as_bool s with
-      | Some v, Some e, Some s => Some (if v && e && s then [(index, strlen, limit)] else [])
+      | Some v, Some e, Some s =>
+          if v && e && s then
+            match json_raw_len_at data index with
+            | Some n => Some [(index, strlen, limit, firstn (Z.to_nat (n + 2)) (skipn (Z.to_nat index) data))]
+            | None => None
+            end
+          else Some []
       | _, _, _ => None
       end
   | _ => None
   end.
 
-Fixpoint json_groups (limits : list Z) (gs : list sx) : option (list (Z * Z * Z)) :=
+Fixpoint json_groups (data : bytes) (limits : list Z) (gs : list sx) : option (list jfound) :=
   match limits, gs with
   | [], [] => Some []
   | l :: ls, g :: gs' =>
-      match json_group l g, json_groups ls gs' with
+      match json_group data l g, json_groups data ls gs' with
       | Some a, Some b => Some (a ++ b)
       | _, _ => None
       end
@@ -111,12 +124,13 @@ Definition json_cut_run (many : bool) (case obs : sx) : verdict :=
     else match case with SL [SB _; SZ limit; SB data] => Some ([limit], data) | _ => None end in
   match parsed, obs with
   | Some (limits, data), SL [vin; vout; out; SL gs] =>
-      match as_bool vin, as_bool vout, json_groups limits gs with
+      match as_bool vin, as_bool vout, json_groups data limits gs with
       | Some vin, Some vout, Some found =>
-          let r := match many, found with
-                   | false, [(index, strlen, limit)] => json_cut data index strlen limit
-                   | false, _ => Ok data
-                   | true, _ => json_cut_many data found
+          (* the fast way is taken when exactly ONE path is configured, whatever gjson finds *)
+          let r := match limits, found with
+                   | [_], [(index, strlen, limit, raw)] => json_cut data index strlen limit raw
+                   | [_], _ => Ok data
+                   | _, _ => json_cut_many data found
                    end in
           let m := sx_of_res SB r in
           (* the property: the decoder does not crash, a valid document stays valid, and the output is the
